@@ -26,7 +26,18 @@ import (
 	"time"
 )
 
-const verifDir = "/verif"
+// verifDir is the directory the check script lives in (its working directory):
+// /verif for registered commands, a snapshot directory under `vp run`.
+var verifDir = func() string {
+	if d := os.Getenv("VERIF_DIR"); d != "" {
+		return d
+	}
+	d, err := os.Getwd()
+	if err != nil {
+		return "/verif"
+	}
+	return d
+}()
 
 type Variant struct {
 	Name  string // file suffix
